@@ -3,6 +3,7 @@ package main
 import (
 	"fmt"
 	"math/rand"
+	"os"
 	"sort"
 	"strconv"
 	"strings"
@@ -48,7 +49,10 @@ type psEvent struct {
 // psConn is one subscriber connection with a reader goroutine that timestamps everything it receives.
 type psConn struct {
 	name   string
-	c      *Client
+	c      *Client // nil for an embedded subscriber
+	in     *Inst   // embedded subscriber: the instance whose Subscribe/PSubscribe API is used
+	tag    string  // embedded subscriber: the tag that names its connection inside the server
+	readFn func() []string
 	mu     sync.Mutex
 	events []psEvent
 	clock  *atomic.Int64
@@ -99,6 +103,97 @@ func (p *psConn) reader() {
 	}
 }
 
+var embTagSeq atomic.Int64
+
+// embReader reads what the embedded subscription API delivers (one call = one message or confirmation).
+func (p *psConn) embReader(read func() []string) {
+	empty := 0
+	for !p.dead.Load() {
+		arr := read()
+		if len(arr) == 0 {
+			empty++
+			if empty > 50 {
+				p.dead.Store(true)
+				return
+			}
+			time.Sleep(time.Millisecond)
+			continue
+		}
+		empty = 0
+		e := psEvent{T: p.clock.Add(1), Kind: "other"}
+		if len(arr) == 3 {
+			e.A, e.Name, e.Data = strings.ToLower(arr[0]), arr[1], arr[2]
+			switch e.A {
+			case "message", "pmessage":
+				e.Kind = "message"
+			case "subscribe", "psubscribe":
+				e.Kind = "confirm"
+			}
+		}
+		if e.Kind == "other" {
+			p.mu.Lock()
+			p.malf = fmt.Sprintf("embedded subscriber read %q", arr)
+			p.mu.Unlock()
+		}
+		p.mu.Lock()
+		p.events = append(p.events, e)
+		p.mu.Unlock()
+	}
+}
+
+// send issues a (P)SUBSCRIBE / (P)UNSUBSCRIBE on behalf of the subscriber. For an embedded subscriber
+// the unsubscribe calls return nothing: the reply the checker works with is synthesised from the
+// names it asked for (withdrawn), after the synchronous call has returned.
+func (p *psConn) send(cmd string, names []string, withdrawn []string) error {
+	if p.c != nil {
+		return p.c.Send(resp.Encode(append([]string{cmd}, names...)...))
+	}
+	switch cmd {
+	case "SUBSCRIBE", "PSUBSCRIBE":
+		var fn func() []string
+		var err error
+		if cmd == "SUBSCRIBE" {
+			var f sugardbReadFn
+			f, err = p.in.S.Subscribe(p.tag, names...)
+			fn = f
+		} else {
+			var f sugardbReadFn
+			f, err = p.in.S.PSubscribe(p.tag, names...)
+			fn = f
+		}
+		if err != nil {
+			return err
+		}
+		if p.readFn == nil {
+			p.readFn = fn
+			go p.embReader(fn)
+		}
+	case "UNSUBSCRIBE", "PUNSUBSCRIBE":
+		if cmd == "UNSUBSCRIBE" {
+			p.in.S.Unsubscribe(p.tag, names...)
+		} else {
+			p.in.S.PUnsubscribe(p.tag, names...)
+		}
+		var elems []resp.Value
+		for _, nm := range withdrawn {
+			elems = append(elems, resp.Value{Kind: resp.Array, Elems: []resp.Value{
+				{Kind: resp.Bulk, Str: strings.ToLower(cmd)}, {Kind: resp.Bulk, Str: nm}, {Kind: resp.Int, Int: 0}}})
+		}
+		p.mu.Lock()
+		p.events = append(p.events, psEvent{T: p.clock.Add(1), Kind: "unsubreply", Raw: resp.Value{Kind: resp.Array, Elems: elems}})
+		p.mu.Unlock()
+	}
+	return nil
+}
+
+func (p *psConn) close() {
+	if p.c != nil {
+		p.c.Close()
+		return
+	}
+	p.dead.Store(true)
+}
+
 func (p *psConn) count(kind string) int {
 	p.mu.Lock()
 	defer p.mu.Unlock()
@@ -122,6 +217,8 @@ func (p *psConn) waitCount(kind string, n int, d time.Duration) bool {
 	return true
 }
 
+type sugardbReadFn = func() []string
+
 type psSub struct {
 	conn      string
 	name      string
@@ -139,7 +236,7 @@ type psPub struct {
 }
 
 func checkC18(ctx *Ctx) {
-	ctx.Rule("one evaluation = one history of SUBSCRIBE/PSUBSCRIBE/UNSUBSCRIBE/PUNSUBSCRIBE/PUBLISH over 2-4 TCP subscriber connections and 1-3 publishers (TCP and embedded), 4 channels and the patterns a*, ?b, *, with bursts of 50-500 publishes, " +
+	ctx.Rule("one evaluation = one history of SUBSCRIBE/PSUBSCRIBE/UNSUBSCRIBE/PUNSUBSCRIBE/PUBLISH over 2-4 subscribers (TCP connections; in every second history one of them is an embedded subscriber using the Subscribe/PSubscribe/Unsubscribe/PUnsubscribe API) and 1-3 publishers (TCP and embedded), 4 channels and the patterns a*, ?b, *, with bursts of 50-500 publishes, " +
 		"recorded at the client boundary on one logical clock and closed by a drain (a final marker per channel). Interval rules: a message is received only through a subscription that existed while it was published, at most once per (message, connection, subscription), " +
 		"every message published after a subscription was confirmed and before it was withdrawn is received, messages of one publisher on one channel arrive in publish order, confirmations carry the running count, and PUBSUB CHANNELS/NUMSUB/NUMPAT equal the reference table at quiescent points. " +
 		"distinct_nontrivial = distinct (rule, subscription kind, burst size class, overlap class) checked")
@@ -185,6 +282,11 @@ func c18History(ctx *Ctx, hi int) {
 	nsub := 2 + r.Intn(3)
 	var conns []*psConn
 	for i := 0; i < nsub; i++ {
+		if i == nsub-1 && hi%2 == 1 {
+			// an embedded subscriber (Subscribe/PSubscribe API of the embedding program)
+			conns = append(conns, &psConn{name: fmt.Sprintf("e%d", i), in: in, tag: fmt.Sprintf("emb-%d-%d", os.Getpid(), embTagSeq.Add(1)), clock: &clock})
+			continue
+		}
 		c, err := Dial(port)
 		if err != nil {
 			ctx.Inconclusive("dial")
@@ -196,7 +298,7 @@ func c18History(ctx *Ctx, hi int) {
 	}
 	defer func() {
 		for _, c := range conns {
-			c.c.Close()
+			c.close()
 		}
 	}()
 	admin, err := Dial(port)
@@ -294,7 +396,7 @@ func c18History(ctx *Ctx, hi int) {
 			}
 			before := pc.count("confirm")
 			trace = append(trace, fmt.Sprintf("%s> %s %s", pc.name, cmd, strings.Join(names, " ")))
-			if err := pc.c.Send(resp.Encode(append([]string{cmd}, names...)...)); err != nil {
+			if err := pc.send(cmd, names, nil); err != nil {
 				ctx.Inconclusive("send failed")
 				return
 			}
@@ -335,9 +437,30 @@ func c18History(ctx *Ctx, hi int) {
 				names = []string{pool[r.Intn(len(pool))]}
 			}
 			before := pc.count("unsubreply")
+			var withdrawn []string
+			if pc.c == nil {
+				// embedded: nothing comes back from the call. What it must withdraw is known (exact names of the
+				// right kind); a pattern that also matches names of regular subscriptions is not used here,
+				// because what the call then withdraws could not be observed.
+				skip := false
+				for _, sb := range subs {
+					if sb.conn != pc.name || sb.unsubSent != 0 {
+						continue
+					}
+					if pattern && len(names) == 1 && sb.name != names[0] && globMatch(names[0], sb.name) {
+						skip = true // PUNSUBSCRIBE <glob> may also withdraw other names the glob matches
+					}
+					if sb.pattern == pattern && (len(names) == 0 || sb.name == names[0]) {
+						withdrawn = append(withdrawn, sb.name)
+					}
+				}
+				if skip {
+					continue
+				}
+			}
 			t := clock.Add(1)
 			trace = append(trace, fmt.Sprintf("%s> %s %s", pc.name, cmd, strings.Join(names, " ")))
-			if err := pc.c.Send(resp.Encode(append([]string{cmd}, names...)...)); err != nil {
+			if err := pc.send(cmd, names, withdrawn); err != nil {
 				ctx.Inconclusive("send failed")
 				return
 			}
@@ -554,6 +677,9 @@ func c18CheckHistory(ctx *Ctx, conns []*psConn, subs []*psSub, pubs []*psPub, fa
 			if !ok {
 				fail("spurious", fmt.Sprintf("%s received message %s (published on %q) through %q without a matching subscription that was alive during the publish", pc.name, e.Data, p.channel, e.Name))
 				return
+			}
+			if pc.c == nil {
+				kind += "|embedded-subscriber"
 			}
 			ctx.Class(fmt.Sprintf("delivered|%s|%s", kind, bclass))
 			// R4 order per (subscription, channel, publisher)
